@@ -8,6 +8,7 @@ import (
 	"sort"
 	"strings"
 
+	"github.com/aml-org/amf-custom-validator/internal/misc"
 	"github.com/aml-org/amf-custom-validator/internal/parser"
 	"github.com/aml-org/amf-custom-validator/internal/parser/path"
 	"github.com/aml-org/amf-custom-validator/internal/parser/profile"
@@ -28,6 +29,15 @@ func GenerateRego(profileText string, eventChan *chan e.Event) (name string, cod
 
 // GenReset restarts the generated-identifier counter, as a fresh process would start.
 func GenReset() { profile.GenReset() }
+
+// RegoString is the quoting function used for every profile text pasted into generated code.
+func RegoString(s string) string { return misc.RegoString(s) }
+
+// ParseMessage splits a message template into its format string and placeholder variables.
+func ParseMessage(raw string) (string, []string) {
+	m := profile.ParseMessageExpression(raw)
+	return m.Expression, m.Variables
+}
 
 // ParseProfile returns the logical rendering of the parsed profile.
 func ParseProfile(profileText string) (string, error) {
